@@ -154,9 +154,11 @@ CHECKS = {
         assumptions=["Mesos master, agents and executors are simulated from the scheduler HTTP API as the core uses it",
                      "silent / dying tasks cost the compiled-in 90-120 s command timeout and are sampled sparsely in a dedicated slow shard"],
         quick=[R("^(TestFixed|TestCanary.*)$", 1, 1, 400), R("^TestTransitions$", 14, 10, 500, shrinktime="60s"),
-               R("^TestTransitions$", 1, 2, 600, env={"VERIF_C02_SLOW": "1"}, shrinktime="1s"), R("^TestFixedSlow$", 1, 1, 600)],
+               R("^TestTransitions$", 1, 2, 600, env={"VERIF_C02_SLOW": "1"}, shrinktime="1s"), R("^TestFixedSlow$", 1, 1, 600),
+               R("^TestFixedLate$", 1, 1, 900), R("^TestFixedQueued$", 1, 1, 900)],
         thorough=[R("^(TestFixed|TestCanary.*)$", 1, 1, 400), R("^TestTransitions$", 300, 14, 3000, shrinktime="120s"),
-                  R("^TestTransitions$", 8, 2, 3000, env={"VERIF_C02_SLOW": "1"}, shrinktime="1s"), R("^TestFixedSlow$", 1, 1, 600)],
+                  R("^TestTransitions$", 8, 2, 3000, env={"VERIF_C02_SLOW": "1"}, shrinktime="1s"), R("^TestFixedSlow$", 1, 1, 600),
+                  R("^TestFixedLate$", 1, 1, 900), R("^TestFixedQueued$", 1, 1, 900)],
         floors={"has-fault": ("TestTransitions", 0.5)},
     ),
     "C01": dict(
